@@ -9,8 +9,8 @@ import (
 	"time"
 
 	websocket "github.com/sheerbytes/sheerbytes/internal/verif/venv/vws"
-	vrt "github.com/sheerbytes/sheerbytes/internal/verif/vrt"
 	"github.com/sheerbytes/sheerbytes/internal/verif/vlib"
+	vrt "github.com/sheerbytes/sheerbytes/internal/verif/vrt"
 	"github.com/sheerbytes/sheerbytes/pkg/protocol"
 )
 
@@ -203,7 +203,6 @@ func (m *lifeModel) alphabet(maxCreates, maxConns int) []LifeEv {
 	}
 	return out
 }
-
 
 type lifeWorld struct {
 	sess    []sessionInfo
